@@ -10,6 +10,8 @@ From SV Require Import Lib.Base Gen.Consts.
 From SV Require Import Model.Seq32 Model.Assembler Model.TcpBuf Model.TcpTypes Model.Tcp.
 From SV Require Import Proofs.Seq32Proofs.
 
+#[local] Set Warnings "-unused-intro-pattern".
+
 (* ================================================================== *)
 (** * 1. Specification                                                 *)
 (* ================================================================== *)
